@@ -1,5 +1,5 @@
 """mirsym: forking (re-execution based) symbolic executor for rustc MIR text dumps."""
-import re, sys, time, os, glob
+import re, sys, time, os, glob, pickle
 import z3
 from .mirparse import parse_mir, lint, split_top, MirError
 from .values import *
@@ -255,6 +255,8 @@ class Engine:
         self.fuel = 0
         self.depth = 0
         self.max_depth = 0
+        self.fork_mode = False; self.is_child = False; self.collected = []; self.deadline = None; self.unexplored = 0; self.child_crashes = 0
+        self.forks = 0; self.fork_sc0 = 0; self.fork_st0 = 0.0; self.slice_deadline = None; self.leftover_alts = []
 
     # ----- path control ---------------------------------------------------------
     def start_path(self, prefix):
@@ -263,7 +265,8 @@ class Engine:
         self.solver.reset()
         self.solver.set('random_seed', self.seed)
         self.cur_model = None; self.n_asserted = 0; self.model_upto = 0
-        self.nsym = 0; self.depth = 0; self.max_depth = 0
+        self.nsym = 0; self.depth = 0; self.max_depth = 0; self.forks = 0
+        ASCII_TERMS.clear()
         self.stats['paths'] += 1
 
     @property
@@ -280,6 +283,12 @@ class Engine:
 
     def fresh_char(self, name):
         c = self.fresh_int(name); self.assume(char_ok(c)); return c
+
+    def fresh_ascii(self, name, cond=None):
+        """a fresh character term assumed to be ASCII (0..0x7f) and to satisfy cond"""
+        c = self.fresh_int(name); self.assume(z3.And(c >= 0, c < 0x80)); mark_ascii(c)
+        if cond is not None: self.assume(cond(c))
+        return c
 
     def sync(self):
         while self.n_asserted < len(self._pc):
@@ -326,14 +335,48 @@ class Engine:
             other = self.check(z3.Not(cond) if mv else cond)
             d = mv
             if other:
-                self.new_alternatives.append(self.decisions + [not mv])
-            else:
-                # the other side is infeasible: not a decision point
-                self._pc.append(cond if d else z3.Not(cond))
-                return d
+                self.forks += 1
+                if self.fork_mode:
+                    now = time.time()
+                    if self.deadline is not None and now > self.deadline:
+                        self.unexplored += 1          # past the wall budget: this side is reported as unexplored
+                    elif self.slice_deadline is not None and now > self.slice_deadline:
+                        self.leftover_alts.append(self.decisions + [not mv])   # time slice used up: hand the other side back to the master
+                    elif not self.fork_child():
+                        d = not mv                    # parent: the child has explored side `mv` completely
+                else:
+                    self.new_alternatives.append(self.decisions + [not mv])
+        # forced branches are recorded too, so that a prefix replays position by position
         self.decisions.append(d)
         self._pc.append(cond if d else z3.Not(cond))
         return d
+
+    def fork_child(self):
+        """fork mode: returns True in the child (which explores the current side and everything below it);
+        in the parent, waits for the child's subtree, stores its pickled result and returns False"""
+        r, w = os.pipe()
+        sys.stdout.flush(); sys.stderr.flush()
+        pid = os.fork()
+        if pid == 0:
+            os.close(r)
+            self.out_fd = w; self.is_child = True; self.collected = []; self.unexplored = 0; self.child_crashes = 0; self.leftover_alts = []
+            self.fork_sc0 = self.stats['solver_calls']; self.fork_st0 = self.stats['solver_time']
+            return True
+        os.close(w)
+        chunks = []
+        while True:
+            b = os.read(r, 1 << 20)
+            if not b: break
+            chunks.append(b)
+        os.close(r)
+        try: os.waitpid(pid, 0)
+        except ChildProcessError: pass
+        if chunks:
+            try: self.collected.append(pickle.loads(b''.join(chunks)))
+            except Exception: self.child_crashes += 1
+        else:
+            self.child_crashes += 1
+        return False
 
     def choose(self, name, k):
         """symbolic choice in range(k): forks k ways"""
@@ -578,13 +621,20 @@ class Engine:
         if len(lst) > 1: raise Unsupported('ambiguous closure span ' + span)
         return lst[0]
 
+    _LIT = {}
+    _INT_RE = re.compile(r'(-?\d+)_(?:[ui](?:8|16|32|64|128|size))')
+
     def const(self, fr, c):
-        m = re.fullmatch(r'(-?\d+)_(?:[ui](?:8|16|32|64|128|size))', c)
-        if m: return int(m.group(1))
+        v = self._LIT.get(c)
+        if v is not None: return v
+        m = self._INT_RE.fullmatch(c)
+        if m:
+            v = int(m.group(1)); self._LIT[c] = v; return v
         if c == 'true': return True
         if c == 'false': return False
         if c == '()': return UNIT
-        if c.startswith('"'): return mkstr(unescape(c[1:-1]))
+        if c.startswith('"'):
+            v = mkstr(unescape(c[1:-1])); self._LIT[c] = v; return v
         if c.startswith('b"'): return Agg('bytes', [ord(x) for x in unescape(c[2:-1])])
         if c.startswith("'"):
             return ord(unescape(c[1:-1]))
@@ -931,6 +981,25 @@ class Engine:
             if pat.match(c): return ('model', m, c)
         return ('none', None, c)
 
+    def prewarm(self, crates):
+        """resolve every call site of the given crates once (before any fork), so that forked children share the cache"""
+        class _Fr: pass
+        n = 0
+        for f in self.prog.all:
+            if f.crate not in crates: continue
+            for b, sts in f.blocks.items():
+                t = sts[-1]
+                if t[0] == 'call' and isinstance(t[2], str):
+                    key = ('call', t[2], f.crate)
+                    if key in self.res_cache: continue
+                    try: tgt = self._resolve_call(t[2], f.crate)
+                    except Unsupported: continue
+                    self.res_cache[key] = tgt; n += 1
+                    if tgt[0] == 'fn':
+                        try: self.subst_for(tgt[1], t[2], None)
+                        except Exception: pass
+        return n
+
     def apply_subst(self, callee, subst):
         for k, v in subst.items():
             if k in callee:
@@ -938,6 +1007,13 @@ class Engine:
         return callee
 
     def subst_for(self, fn, callee, outer):
+        key = ('subst', fn, callee)
+        r = self.res_cache.get(key, 0)
+        if r == 0:
+            r = self._subst_for(fn, callee, outer); self.res_cache[key] = r
+        return r
+
+    def _subst_for(self, fn, callee, outer):
         """bind the impl's type parameters from the call's trait arguments"""
         info = self.prog.impl_info(fn)
         if not info or not info['params']: return None
